@@ -150,6 +150,37 @@ def part_b(tier, seed, rng, wd, v, replay):
                                                     "what": "token grants violate the window bound burst + qps*T / the range 0..ask"})
     out["states"] += tv.distinct
     out["transitions"] += tv.generated
+    # sequential in-flight reports through DoAcquire (max-in-flight schema), negative amounts included
+    mscs = []
+    for i in range(40 if tier == "quick" else 600):
+        limit = rng.choice([4, 6, 10])
+        steps = [{"k": "hb", "inst": x} for x in ("i1", "i2", "i3")]
+        for k in range(rng.randint(4, 14)):
+            inst = rng.choice(["i1", "i2", "i3"])
+            steps += [{"k": "hb", "inst": inst}, {"k": "acquire", "up": "um", "inst": inst, "tokens": rng.choice([-3, -1, -1, 0, 1, 2, 3, 5, limit - 1, limit, limit + 1]), "id": 0}]
+        mscs.append({"id": 5000 + i, "shards": 1, "servers": ["A"], "store": "local", "limit": limit,
+                     "upstreams": [{"name": "um", "type": "mif", "strategy": "globalCount", "max": limit, "burst": 0}], "steps": steps})
+    mtr, mcr = vlib.run_test_driver(binp, mscs, wd, timeout=1200, name="mifseq")
+    msc_by_id = {str(s["id"]): s for s in mscs}
+    for sid_, tail in mcr.items():
+        v.violation("mifseq-crash-%s" % sid_, {"scenario": msc_by_id[sid_], "what": "server process crashed", "stderr_tail": tail})
+    mtl = []
+    for sid_, t in mtr.items():
+        evs = [{"inst": e["inst"], "n": e["tokens"], "accept": bool(e.get("accept")), "lim": e.get("limit", 0), "err": ("err" in e) or bool(e.get("rerr"))} for e in t["events"] if e["k"] == "acquire"]
+        mtl.append({"id": int(sid_), "limit": msc_by_id[sid_]["limit"], "events": evs})
+    mp = os.path.join(wd, "mifseq.ndjson")
+    vlib.write_ndjson(mp, mtl)
+    mv = vlib.tlc("limiter", "TraceGcSeq", "TraceGcSeq.cfg", workers=8, timeout=1200, consts={"TraceFile": '"%s"' % mp})
+    mby = {str(t["id"]): t for t in mtl}
+    for l in mv.out.splitlines():
+        if l.startswith('<<"REJECT"'):
+            parts = [x.strip() for x in l.strip("<>").split(",")]
+            nrej += 1
+            v.violation("mifseq-%s" % parts[1], {"scenario": msc_by_id[parts[1]], "reports": mby[parts[1]]["events"], "rejected_at": int(parts[2]),
+                                                 "what": "in-flight reports through DoAcquire: a negative amount was not refused / the accepted counts sum above the limit / a report that fits was refused"})
+    out["states"] += mv.distinct
+    out["transitions"] += mv.generated
+    out["mif_reports_through_DoAcquire"] = sum(len(t["events"]) for t in mtl)
     out.update({"traces": len(tl), "rejected": nrej, "acquires": sum(len(t["events"]) for t in tl),
                 "granted_total": sum(e["grant"] for t in tl for e in t["events"]), "sample": tl[0]["events"][:8] if tl else []})
     return out
